@@ -188,6 +188,14 @@ EVENTS = [
             "preserve_suffix_v6": 24, "preserve_networks": ["10.0.0.0/8"]}, TEXT],
 ]
 
+# an earlier anonymizer that read $9$ secrets cut short by one, two, three characters (every row of the codec's
+# tables is the last one of some line)
+from mc import refs as _refs   # noqa: E402
+
+_SHORT9 = [_refs.j9_encode("abcdefghijkl"[:n], "Qk7-zR"[n % 6])[:-cut] for n in range(1, 10) for cut in (1, 2, 3)]
+EVENTS.append(["fa", {"anon_pwd": True, "anon_ip": False, "salt": "other9"},
+               "".join('set system z secret "%s"\n' % x for x in _SHORT9)])
+
 
 def _ns():
     ns = {"WORDS": WORDS, "ASNS": ASNS}
